@@ -8,6 +8,10 @@
 //!       starts the API zoo, prints `PORT <n>` and `DOC <path>`, serves until
 //!       stdin closes.
 //!
+//!   vmon_oas c07 | c08 --seed N --tier quick|thorough --out FILE [--procs N]
+//!       engine entry points with the standard contract: run the python
+//!       oracle (py/oas_c07.py, py/oas_c08.py) against THIS binary.
+//!
 //! The verdicts are computed by /verif/py/oas_c08.py and /verif/py/oas_c07.py
 //! (independent validator: python jsonschema).
 mod corpus;
@@ -92,8 +96,31 @@ fn c08_dump(args: &Args) {
     out.flush().unwrap();
 }
 
+/// `vmon_oas c07|c08 ...`: hand over to the python oracle, which drives this very binary
+fn run_oracle(which: &str) -> ! {
+    let script = format!("{}/../../py/oas_{}.py", env!("CARGO_MANIFEST_DIR"), which);
+    let exe = std::env::current_exe().expect("current_exe");
+    let status = std::process::Command::new("python3-vt")
+        .arg(&script)
+        .args(std::env::args().skip(2))
+        .env("VMON_OAS_BIN", exe)
+        .status();
+    match status {
+        Ok(s) => std::process::exit(s.code().unwrap_or(2)),
+        Err(e) => {
+            eprintln!("cannot run python3-vt {script}: {e}");
+            std::process::exit(2)
+        }
+    }
+}
+
 fn main() {
     vmon::panics::install();
+    match std::env::args().nth(1).as_deref() {
+        Some("c07") => run_oracle("c07"),
+        Some("c08") => run_oracle("c08"),
+        _ => {}
+    }
     let args = parse_args();
     let r = std::panic::catch_unwind(|| match args.cmd.as_str() {
         "c08-dump" => c08_dump(&args),
